@@ -715,10 +715,10 @@ Lemma marker_rel_not_chunk_rel : forall a b s, marker_rel a <> chunk_rel b s.
 Proof. intros a b s. unfold marker_rel, chunk_rel. apply marker_not_chunk. Qed.
 
 Lemma last_obj_put : forall done arr starts acc,
-  last_put done arr starts (ans_of acc) = ans_of (last_obj done (chunk_rel arr starts) acc).
+  ulast_put done arr starts (ans_of acc) = ans_of (last_obj done (chunk_rel arr starts) acc).
 Proof.
   induction done as [|op done IH]; intros arr starts acc; [reflexivity|].
-  destruct op as [a s v|a s|a|a]; cbn [last_put last_obj]; try apply IH.
+  destruct op as [a s v|a s|a|a]; cbn [ulast_put last_obj]; try apply IH.
   - destruct (str_eq_dec (chunk_rel a s) (chunk_rel arr starts)) as [E|E].
     + apply chunk_rel_inj in E. destruct E as [-> ->].
       destruct (str_eq_dec arr arr); [|congruence]. destruct (zs_eq_dec starts starts); [|congruence].
@@ -732,10 +732,10 @@ Qed.
 Definition is_some {T} (o : option T) : bool := match o with Some _ => true | None => false end.
 
 Lemma last_obj_mark : forall done arr acc,
-  was_marked done arr (is_some acc) = is_some (last_obj done (marker_rel arr) acc).
+  uwas_marked done arr (is_some acc) = is_some (last_obj done (marker_rel arr) acc).
 Proof.
   induction done as [|op done IH]; intros arr acc; [reflexivity|].
-  destruct op as [a s v|a s|a|a]; cbn [was_marked last_obj]; try apply IH.
+  destruct op as [a s v|a s|a|a]; cbn [uwas_marked last_obj]; try apply IH.
   - destruct (str_eq_dec (chunk_rel a s) (marker_rel arr)) as [E|E]; [exfalso; symmetry in E; eapply marker_rel_not_chunk_rel; eauto|].
     apply IH.
   - destruct (str_eq_dec (marker_rel a) (marker_rel arr)) as [E|E].
